@@ -79,6 +79,19 @@ namespace detail
 		}
 	};
 
+#	if GLM_CONFIG_ALIGNED_GENTYPES == GLM_ENABLE
+	template<>
+	struct compute_normalize<4, float, aligned_lowp, true>
+	{
+		GLM_FUNC_QUALIFIER static vec<4, float, aligned_lowp> call(vec<4, float, aligned_lowp> const& v)
+		{
+			vec<4, float, aligned_lowp> Result;
+			Result.data = glm_vec4_normalize_lowp(v.data);
+			return Result;
+		}
+	};
+#	endif
+
 	template<qualifier Q>
 	struct compute_faceforward<4, float, Q, true>
 	{
